@@ -279,6 +279,30 @@ func run(r *vt.Run, t vt.TB, s spec) {
 	_, err = os.Stat(base + "-journal")
 	baseJournal := err == nil
 
+	// a database whose name is so long that "<name>-journal" is no possible
+	// file name: it has no journal, it reads like any other
+	longName := filepath.Join(dir, strings.Repeat("n", 243)+".sqlite") // 250 bytes; + "-journal" = 258 > NAME_MAX
+	if err := copyFile(base, longName); err == nil {
+		if err := env.O.Open("long", longName); err == nil {
+			wantN, qerr := env.O.Query("long", "SELECT count(*) FROM t")
+			env.O.Close("long")
+			if qerr == nil {
+				n := int64(0)
+				h, err := sqlittle.Open(longName)
+				if err == nil {
+					err = h.Select("t", func(sqlittle.Row) { n++ }, "a")
+					h.Close()
+				}
+				if err != nil || n != wantN[0][0].I {
+					os.Remove(longName)
+					r.Violation(t, s, "error-without-journal:name-too-long-for-a-journal", "a database file with a name of 250 bytes (its journal could not even be named): sqlittle reads %d rows, error %v; SQLite reads %d rows", n, err, wantN[0][0].I)
+					return
+				}
+				r.Count("long-named-database-read", 1)
+			}
+		}
+		os.Remove(longName)
+	}
 	work := filepath.Join(dir, "work.sqlite")
 	prepare := func() {
 		sqdb.Remove(work)
